@@ -27,6 +27,9 @@ RULE = (
     'SHA-1 of the canonical case JSON.'
     ' Part append may inject one OSError into the n-th open() of one append,'
     ' which is then retried. '
+    ' Part api may ask the same question again after fe.api.df_model_statis'
+    "tics and a caller that scribbles on find()'s results have read the his"
+    'tory. '
 )
 ASSUMPTIONS = [
     'query bounds are timezone-aware UTC datetimes (what schedule.complete '
